@@ -443,6 +443,7 @@ class SimMachine(object):
         self.validate = True
         self.strict_access = True
         self.on_command = None      # hook(chip, req, endpoint_ip)
+        self.swallow = None         # hook(chip, req) -> bool: request is lost
         self.machine_faults = True
         self.ff_miss = None         # hook(chip, kind) -> bool (chip misses it)
         self.app_start_latency = 0.0
@@ -525,6 +526,8 @@ class SimMachine(object):
         else:
             chip = self.chips.get((r.dest_x, r.dest_y))
         w.trace.ev("cmd", r.cmd, r.dest_x, r.dest_y, r.dest_cpu, r.seq)
+        if self.swallow is not None and self.swallow(chip, r):
+            return          # (an engine's scripted request loss)
         if chip is None or chip.dead:
             reply(wire.build_reply(r, RC_ROUTE))
             return
